@@ -352,15 +352,15 @@ func advProperty(t *testing.T, names []string, quick, thorough int) {
 
 func TestAdversarySecp256k1(t *testing.T) {
 	t.Parallel()
-	advProperty(t, []string{"secp256k1"}, 90, 6000)
+	advProperty(t, []string{"secp256k1"}, 90, 2500)
 }
 
 func TestAdversaryBN254(t *testing.T) {
 	t.Parallel()
-	advProperty(t, []string{"bn254"}, 90, 6000)
+	advProperty(t, []string{"bn254"}, 90, 2500)
 }
 
 func TestAdversaryFakeGLV(t *testing.T) {
 	t.Parallel()
-	advProperty(t, []string{"p256"}, 30, 3000)
+	advProperty(t, []string{"p256"}, 30, 1000)
 }
